@@ -34,8 +34,13 @@ class BrentsRootFinder:
         self.next_abscissa: Optional[float] = None
 
     def get_next_abscissa(self) -> float:
-        if abs(self.fc - self.fa) < self.epsilon or abs(self.fc - self.fb) < self.epsilon:
-            # Secant method
+        if (
+            abs(self.fc - self.fa) < self.epsilon
+            or abs(self.fc - self.fb) < self.epsilon
+            or self.fc == 0
+        ):
+            # Secant method (also when fc is an exact zero, which the
+            # inverse quadratic interpolation below would divide by)
             dx = self.fb * (self.b - self.a) / (self.fa - self.fb)
         else:
             # Inverse quadratic interpolation
@@ -91,6 +96,10 @@ class BrentsRootFinder:
         self.current_guess = self.b
 
     def is_converged(self, tolerance: float) -> bool:
+        # When both ends of the bracket are exact roots there is nothing left to refine,
+        # and the next secant step would divide by fa - fb == 0.
+        if self.fa == 0 and self.fb == 0:
+            return True
         return abs(self.b - self.a) < tolerance
 
 
